@@ -269,7 +269,11 @@ def runner_worker(sub, item):
         echo = echo and all(k in out and plain(out[k]) == plain(interp[k]) for k in interp)
         used = [float(v) for v in r.configs.managers["interpolator"].xgrid.raw]
         echo = echo and used == sorted(float(v) for v in wo["interpolation_xgrid"]) and [float(v) for v in plain(out["xgrid"])["grid"]] == used
-        sub.add(ob_eval(f"{name}/echo: cards by reference, interpolator description, pids, projectilePID", echo))
+        # ... and that description is the one of THIS card (log flag, degree), not merely of whatever
+        # interpolator the runner holds
+        po = plain(out)
+        echo_card = bool(po["xgrid"]["log"]) == bool(wo["interpolation_is_log"]) and int(po["polynomial_degree"]) == int(wo["interpolation_polynomial_degree"]) and bool(po["is_log"]) == bool(wo["interpolation_is_log"])
+        sub.add(ob_eval(f"{name}/echo: cards by reference, interpolator description, pids, projectilePID", echo and echo_card))
         r2 = rmod.Runner(wt, wo)
         same = plain(r2._theory) == plain(r._theory) and plain(r2._observables) == plain(r._observables)
         sub.add(ob_eval(f"{name}/repeated construction from the same objects gives equal internal cards", same))
@@ -290,10 +294,43 @@ def runner_worker(sub, item):
         sub.add(Ob(name, "post", "error", "engine", 0, f"{type(e).__name__}: {e} {traceback.format_exc()[-600:]}"))
 
 
+def sec_runner_history(rep):
+    """Several runners built one after the other in ONE process from cards that differ in one
+    interpolation entry only (log flag, one node by a few 1e-9, degree): each runner's interpolator and
+    each output's echo belong to its own card -- nothing is carried over from an earlier runner."""
+    from yadism import runner as rmod
+
+    g = [1e-9, 1e-6, 1e-3, 1e-2, 0.1, 0.3, 0.6, 1.0]
+    seq = [
+        ("log grid", dict(interpolation_xgrid=list(g), interpolation_is_log=True, interpolation_polynomial_degree=3)),
+        ("same nodes, linear", dict(interpolation_xgrid=list(g), interpolation_is_log=False, interpolation_polynomial_degree=3)),
+        ("lowest node 4e-9", dict(interpolation_xgrid=[4e-9] + g[1:], interpolation_is_log=True, interpolation_polynomial_degree=3)),
+        ("degree 2", dict(interpolation_xgrid=list(g), interpolation_is_log=True, interpolation_polynomial_degree=2)),
+        ("log grid again", dict(interpolation_xgrid=list(g), interpolation_is_log=True, interpolation_polynomial_degree=3)),
+    ]
+    for i, (nm, over) in enumerate(seq):
+        rep.cases += 1
+        th, ob = cards("ZM-VFNS", 3, "proton", OPTIONALS)
+        th.update(PTO=0, PTODIS=0)
+        ob.update(over)
+        try:
+            r = rmod.Runner(th, ob)
+            it = r.configs.managers["interpolator"]
+            po = plain(r._output)  # pylint: disable=protected-access
+            got = dict(nodes=[float(v) for v in it.xgrid.raw], log=bool(it.xgrid.log), degree=int(it.polynomial_degree), echoed_nodes=[float(v) for v in po["xgrid"]["grid"]], echoed_log=bool(po["xgrid"]["log"]), echoed_is_log=bool(po["is_log"]), echoed_degree=int(po["polynomial_degree"]))
+            want = dict(nodes=[float(v) for v in over["interpolation_xgrid"]], log=over["interpolation_is_log"], degree=over["interpolation_polynomial_degree"], echoed_nodes=[float(v) for v in over["interpolation_xgrid"]], echoed_log=over["interpolation_is_log"], echoed_is_log=over["interpolation_is_log"], echoed_degree=over["interpolation_polynomial_degree"])
+            ok = got == want
+            detail = "own interpolator, own echo" if ok else str({k: (got[k], want[k]) for k in got if got[k] != want[k]})[:400]
+        except Exception as e:  # noqa
+            ok, detail = False, f"{type(e).__name__}: {e}"
+        rep.add(ob_eval(f"C20/Runner/history[{i}: {nm}]/interpolator and echo are those of this card", ok, detail=detail, inputs={} if ok else {"sequence": str([n_ for n_, _ in seq[: i + 1]]), "observed (got, card)": detail}, replay={"confirmed": True, "python": "the listed runners constructed in this order in one process"}))
+
+
 def sec_runner(rep, tier):
     from yadism import runner as rmod
 
     rep.under_contract(rmod.Runner.__init__, rmod.Runner.get_result)
+    sec_runner_history(rep)
     items = []
     for fns in H.SCHEMES:
         for nf_ff in (3, 4, 5):
